@@ -202,8 +202,51 @@ ALLOWED_REG_CALLERS = {"defvjp", "defvjp_argnum", "defjvp", "defjvp_argnum", "de
                        "deprecated_defvjp", "deprecated_defvjp_is_zero", "deprecated_defgrad", "primitive_with_deprecation_warnings.__new__"}
 
 
+def _callers(trees):
+    """callee simple name -> set of (file, enclosing top-level function or '<module>') over the scanned files"""
+    out = {}
+    for rel, tree in trees.items():
+        for top in tree.body:
+            scope = top.name if isinstance(top, (ast.FunctionDef, ast.ClassDef)) else "<module>"
+            for n in ast.walk(top):
+                if isinstance(n, ast.Call):
+                    nm = n.func.id if isinstance(n.func, ast.Name) else (n.func.attr if isinstance(n.func, ast.Attribute) else None)
+                    if nm:
+                        out.setdefault(nm, set()).add((rel, scope))
+                # a function passed as a value (callback) may be called from anywhere
+                if isinstance(n, ast.Name) and isinstance(n.ctx, ast.Load):
+                    out.setdefault("&" + n.id, set()).add((rel, scope))
+    return out
+
+
+def _registration_only(fname, callers, allowed, depth=0):
+    """True if the (private) function `fname` is called only from module level or from registration functions (transitively): it is then itself
+    registration-time code, wherever its body was moved from (helper extraction must not change the verdict)."""
+    sites = callers.get(fname, set())
+    if depth > 3:
+        return False
+    if not sites:
+        return depth > 0      # a caller that is itself never called is dead code; at depth 0 the caller of this function requires a call site
+    for rel, scope in sites:
+        if scope == "<module>" or scope == fname:
+            continue
+        if scope in allowed or scope.startswith("deprecated") or scope in ("defvjp", "defjvp", "defvjp_argnum", "defjvp_argnum", "def_linear", "register", "register_notrace"):
+            continue
+        if _registration_only(scope, callers, allowed, depth + 1):
+            continue
+        return False
+    return True
+
+
 def run_frame(rep, tier):
     nsite = 0
+    trees = {}
+    for rel in FILES:
+        try:
+            trees[rel] = ast.parse(open(os.path.join(REPO, rel)).read())
+        except (OSError, SyntaxError):
+            pass
+    callers = _callers(trees)
     for rel in FILES:
         path = os.path.join(REPO, rel)
         if not os.path.exists(path):
@@ -223,6 +266,11 @@ def run_frame(rep, tier):
                 why = "store into process-wide state outside a registration function"
             elif kind == "registration-call":
                 ok = q.split(".")[0] in ALLOWED_REG_CALLERS or q in ALLOWED_REG_CALLERS or q.split(".")[0].startswith("deprecated")
+                if not ok:   # a helper that is itself only ever called at registration time
+                    top = q.split(".")[0]
+                    uses = {sc for _, sc in callers.get("&" + top, set())} - {top}
+                    called = {sc for _, sc in callers.get(top, set())}
+                    ok = bool(called) and uses <= called and _registration_only(top, callers, ALLOWED_REG_CALLERS | ALLOWED_FUNCS)
                 why = "a rule table is modified from inside a non-registration function"
             elif kind in ("attr", "aug", "next"):
                 ok = (rel, q, kind) in AUDITED or q.split(".")[-1] in ("__init__", "initialize_root")
